@@ -486,14 +486,15 @@ Structure of the proof (`Lemmas/NttMath.lean`, `NttRefine.lean`, `NttTable.lean`
    worst-case magnitude through the levels) and the twiddle conditions;
 3. the real tables satisfy both, for every `n = 2^j`, `1 ≤ j ≤ 16` (the constructor asserts `n ≤ 2^16`):
    twiddles by general lemmas (`modq_pow`, successive multiplication, packing), the schedule by kernel
-   evaluation of the metadata for Primes30 and Primes31 (`primes30_nttGood`, `primes31_nttGood`). -/
+   evaluation of the metadata for Primes29/30/31 (`primes29_nttGood`, `primes30_nttGood`, `primes31_nttGood`). -/
 
 section NTT120Transform
 open Ntt120 NttMath
 
 /-- the closed numeric facts (schedule checks for all 16 sizes × 4 primes, `OMEGA^(2^16) = −1`,
-`2^17 ∣ q − 1`, `2^(q−1) = 1`, reduction constants) hold for the default prime set and for Primes31 -/
-theorem ntt120_transform_facts : primes30.NttGood ∧ primes31.NttGood := ⟨primes30_nttGood, primes31_nttGood⟩
+`2^17 ∣ q − 1`, `2^(q−1) = 1`, reduction constants) hold for the three prime sets of `primes.rs` -/
+theorem ntt120_transform_facts : primes30.NttGood ∧ primes31.NttGood ∧ primes29.NttGood :=
+  ⟨primes30_nttGood, primes31_nttGood, primes29_nttGood⟩
 
 /-- `NttTable::new(2^j)` and `NttTableInv::new(2^j)` never hit their bit-size assertions, `1 ≤ j ≤ 16` -/
 theorem ntt120_tables_never_panic (P : PrimeSet) (ng : P.NttGood) (k j : Nat) (hk : k < 4) (hj1 : 1 ≤ j) (hj : j ≤ 16) :
